@@ -1003,4 +1003,29 @@ theorem wfAt_all (W : World) (hW : WorldOK W) : ∀ f, WfAt W f
       for_ := wf_for_step W f ih, items := wf_items_step W f ih, tmpl := wf_tmpl_step W f ih, incl := wf_incl_step W hW f ih,
       slot := wf_slot_step W f ih }
 
+
+/-! ### the slots a page hands to its layouts -/
+
+mutual
+theorem scopeOK_pageSlotsNode : ∀ (n : Node) (acc : SlotScope), TplNode n → ScopeOK acc → ScopeOK (pageSlotsNode acc n)
+  | .elem tag attrs kids, acc, h, hacc => by
+    simp only [TplNode] at h
+    simp only [pageSlotsNode]
+    apply scopeOK_pageSlotsList kids _ h.2.2
+    split
+    · exact scopeOK_setSlot _ hacc ⟨h.2.2, fun tk htk => by simp only [Option.some.injEq] at htk; subst htk; exact h.2.2⟩
+    · exact hacc
+  | .text _, _, _, hacc => hacc
+  | .comment _, _, _, hacc => hacc
+  | .doctype _, _, _, hacc => hacc
+theorem scopeOK_pageSlotsList : ∀ (ns : List Node) (acc : SlotScope), TplList ns → ScopeOK acc → ScopeOK (pageSlotsList acc ns)
+  | [], _, _, hacc => hacc
+  | n :: r, acc, h, hacc => by
+    simp only [pageSlotsList]
+    exact scopeOK_pageSlotsList r _ h.2 (scopeOK_pageSlotsNode n acc h.1 hacc)
+end
+
+theorem scopeOK_extractPageSlots {dom : List Node} (h : TplList dom) : ScopeOK (extractPageSlots dom) :=
+  scopeOK_pageSlotsList dom [] h (fun e he => by cases he)
+
 end Vuego
